@@ -135,7 +135,7 @@ func genQp3(g *vlib.G) {
 	N := vlib.Pick(g, 12, 14)
 	nbs := vlib.Pick(g, []int{2, 3, 4}, []int{2, 3, 4, 5})
 	nxs := []int{0, 4}
-	fams := generalFams(N, true)
+	fams := generalFams(N, g.Thorough())
 	for m := 0; m <= N; m++ {
 		for n := 0; n <= N; n++ {
 			for _, f := range fams {
